@@ -383,16 +383,32 @@ class C22(Prop):
         while len(files) > 6:
             files.pop(rng.choice(sorted(files)))
 
+        tops = sorted({'s/' + comps(p)[1] for p in list(files) + dirs if p.startswith('s/')})
+
+        def pick_src():
+            r = rng.random()
+            if r < 0.12 or not tops:
+                return rng.choice(['s/missing', 's/missing/', 's/a/nope'])
+            t = rng.choice(tops)
+            if r < 0.2 and (t + '/file1') in files:
+                return t + '/file1'
+            if r < 0.3 and any(p.startswith(t + '/subdir/') for p in files):
+                return t + '/subdir'
+            return t + ('/' if rng.random() < 0.3 else '')
+
         def one_xfer(area):
-            src_pool = ['s/a', 's/a', 's/a/', 's/b', 's/c', 's/c/', 's/missing', 's/a/subdir', 's/a/file1', 's/b/']
             dest_pool = [area, area + '/', f'{area}/a', f'{area}/a/', f'{area}/x', f'{area}/x/', f'{area}/x/y', f'{area}/a/file3',
                          f'{area}/a/subdir', f'{area}/keep', f'{area}/a/a']
             mode = rng.choice(['dest_dir', 'dest_is_target', 'infer_dest'])
-            if rng.random() < 0.25:
+            if rng.random() < 0.3 and mode != 'dest_is_target':
                 k = rng.choice([1, 2, 2, 3])
-                src = rng.sample(['s/a', 's/b', 's/c', 's/missing', 's/a/'], k)
+                src = []
+                for _ in range(k):
+                    c = pick_src()
+                    if c.rstrip('/') not in [e.rstrip('/') for e in src]:
+                        src.append(c)
             else:
-                src = rng.choice(src_pool)
+                src = pick_src()
             return {'src': src, 'dest': rng.choice(dest_pool), 'mode': mode}
         xfers = [one_xfer('d')]
         if rng.random() < 0.2:
